@@ -23,6 +23,9 @@ package codec
 
 //@ define predValidName(s string) bool = predValidPrefix(s, len(s))
 
+// The decoded access result is never modified.
+//@ immutable AccessResult.Get, AccessResult.Call
+
 //@ func IsValidRIDPart
 //@   ensures[C14] result == predValidPart(part)
 //@   assigns nothing
